@@ -3,6 +3,7 @@ import re
 
 import vlib
 import gen_c14
+from props import c14_builder
 
 PID = "C14"
 MANIFEST = {
@@ -23,13 +24,17 @@ MANIFEST = {
             "bind/align/embed/section/label arguments; every answer is judged by the Lean monitor and, for Assemblers, compared with the model.",
     "note": "Partial: the encoder's accept/reject decision and bytes are a parameter of the model (C01/C02/C13), so 'emits a correct instruction' "
             "is only judged through necessary conditions (labels exist, AArch64 register ids fit their fields); undefined behaviour is witnessed "
-            "by ASan/UBSan on the explored inputs, not proved; allocation failure is C15. Builder/Compiler are covered by the monitor and the "
-            "shadow differential only (no Lean model of the node list here). Open finding C14-K1: bind() whose pending rel8 does not reach "
-            "returns kInvalidDisplacement with the label bound (theorems carry the hypothesis excluding exactly this class; witness proved). "
+            "by ASan/UBSan on the explored inputs, not proved; allocation failure is C15. The Builder is tied to C08's Model/Builder.lean (Props/C14Builder.lean: a refused Builder call is the "
+            "identity, a refused instruction clears the one-shot state, a session equals the session of its accepted calls, a failed "
+            "serialize/finalize leaves exactly the accepted prefix) by replaying every Builder session on the model and by comparing every "
+            "finalize() with direct assembling of the serialized calls; the Compiler is covered by the monitor and the shadow differential only. "
+            "Open finding C14-K1 (residue): embed_const_pool = align(); bind(): a pending reference that cannot reach the aligned position is "
+            "refused after the padding (theorems carry the hypothesis excluding exactly this class; witness proved); plain bind() is atomic "
+            "with fix C14-13. "
             "Trusted: Lean kernel, Spec/Emitter.lean as the meaning of the property, tools/gen_c14.py (regex based, heuristic block scan), the "
             "harness snapshot (content digest of sections, labels, fixups, relocations, nodes).",
 }
-MODS = ["AsmjitVerif.Props.C14"]
+MODS = ["AsmjitVerif.Props.C14", "AsmjitVerif.Props.C14Builder"]
 A64_NAMES = {}      # instruction id -> name (filled from the typed overloads of a64emitter.h on every run)
 INVALID = 0xFFFFFFFF
 
@@ -296,7 +301,7 @@ class Gen:
             item = bytes(r.getrandbits(8) for _ in range(r.choice((0, 1, 2, 4)))).hex() or "-"
             return "embedarr %d %s %d %d" % (t, item, r.choice((0, 1, 2, 3, 7)), r.choice((0, 1, 1, 2, 3)))
         if k < 0.77:
-            return "cpool %d %d %d" % (self.label_id(0.8), r.choice((1, 2, 4, 8, 8, 16, 32)), r.choice((0, 1, 2, 3)))
+            return "cpool %d %d %d" % (self.label_id(0.8), r.choice((1, 2, 4, 8, 8, 16)), r.choice((0, 1, 2, 3)))
         if k < 0.82:
             return "elabel %d %d" % (self.label_id(0.7), r.choice((0, 4, 8, 1, 2, 3, 16, 5)))
         if k < 0.87:
@@ -308,13 +313,15 @@ class Gen:
         return "section %s" % r.choice(("0", "0", "1", "1", "2", "foreign", "7", str(self.sections)))
 
     def short_jump_overflow(self):
-        """valid calls that lead to finding C14-K1: a short forward jump, more than 127 bytes, then the bind"""
+        """valid calls around the unreachable displacement: a short forward jump, 126..200 bytes, then bind (refused atomically since fix
+        C14-13) or embed_const_pool (finding C14-K1: refused after the padding)"""
         r = self.rng
         lab = self.labels
         self.labels += 1
         inst = next(f[0] for f in self.forms if f[1] == "jmp" and f[2] == ("Label",))
         pad = r.choice((126, 127, 128, 129, 200))
-        return ["label", "emit %d 10 - 0 l%d" % (inst, lab), "embed %s" % ("90" * pad), "bind %d" % lab]
+        last = "bind %d" % lab if r.random() < 0.6 else "cpool %d 8 1" % lab      # the latter: what is left of finding C14-K1
+        return ["label", "emit %d 10 - 0 l%d" % (inst, lab), "embed %s" % ("90" * pad), last]
 
 
 def probe_corpus(h, rng, tier, forms_by_arch):
@@ -643,6 +650,20 @@ def judge(h, sessions, names):
         if model_got(got, mod_unk[k]) != mod_exp[k]:
             seen.add(si)
             res["diffs"].append((i, model_got(got, mod_unk[k]), mod_exp[k]))
+    # Builder sessions against Model/Builder.lean (driver component C14B) + the finalize tie
+    bdiffs, bstats = c14_builder.judge_builder(h, sessions, answers, names, opw, pre_of, parse_answer, errname)
+    res["builder"] = bstats
+    pos = {o: k for k, o in enumerate(owner)}
+    for si, oi, got, exp in bdiffs:
+        if si < 0:
+            res["protocol"] = got
+            return res
+        if si in bad_sessions:
+            continue
+        if exp.startswith("finalize: "):
+            res.setdefault("fin_diffs", []).append((pos.get((si, oi), 0), got, exp))
+        else:
+            res["diffs"].append((pos.get((si, oi), 0), got, exp))
     res["tainted"] = len(tainted)
     res["mon_n"] = len(mon_lines)
     res["mod_n"] = len(mod_lines)
@@ -653,8 +674,6 @@ def bad_key(names, sess_hdr, op, d, verdict):
     w = opw(op)
     clause = verdict.split()[1] if verdict.startswith("BAD ") else verdict
     opname = w[0]
-    if opname == "cpool" and clause == "atomic" and errname(names, d["ret"]) == "InvalidDisplacement":
-        opname = "bind"      # the bind() inside embed_const_pool: the class of finding C14-K1
     return "%s:%s:%s" % (clause, opname, errname(names, d["ret"]))
 
 
@@ -802,6 +821,7 @@ def run(res):
                                           "sessions": len(sessions)}
     res.coverage["monitored_answers"] = r["mon_n"]
     res.coverage["sessions_cut_at_defect_18_C03"] = r["tainted"]
+    res.coverage["builder_model_correspondence"] = r.get("builder", {})
     res.coverage["traces_validated_against_impl"] = r["mod_n"]
     idxs = [i for i in (5, len(flat) // 3, len(flat) // 2, len(flat) - 2) if 0 <= i < len(flat) and flat[i].split()[0] != "new"]
     res.add_samples([{"op": flat[i], "impl": impl[i][:300]} for i in idxs])
@@ -824,6 +844,13 @@ def run(res):
                       "fresh = differs from an emitter that only saw the accepted calls)" % (
                           sess[0], flat[i], errname(names, d["ret"]), d["handled"], v),
                       {"ops": ops, "monitor": v, "answer": impl[i][:600]}, found_input=True, key=key)
+    if r.get("fin_diffs"):
+        i, got, exp = r["fin_diffs"][0]
+        si, oi = owner[i]
+        res.violation("Builder::finalize() does not leave what assembling its serialized calls directly leaves (all of them on success, the "
+                      "ones in front of the first refused call - and that call's error - on failure): session %r: %s; %s (%d such sessions)" % (
+                          sessions[si][0], exp, got, len(r["fin_diffs"])),
+                      {"ops": sessions[si][:oi + 1], "finalize": exp, "direct": got}, found_input=True, key="finalize:prefix")
     if r["diffs"]:
         i, got, exp = r["diffs"][0]
         si, oi = owner[i]
